@@ -24,6 +24,14 @@ PLAN = {
         "quick": [R("v0", 4), R("v1", 2), R("miri", 2, timeout=1500)],
         "thorough": [R("v0", 16), R("v1", 8), R("tsan", 4), R("miri", 8, timeout=7200)],
     },
+    "C08": {
+        "quick": [R("v0", 2), R("v1", 2), R("miri", 1, timeout=1500)],
+        "thorough": [R("v0", 8), R("v1", 8), R("tsan", 2, scale=0.2), R("miri", 4, timeout=7200)],
+    },
+    "C15": {
+        "quick": [R("v0", 4), R("miri", 1, timeout=1500)],
+        "thorough": [R("v0", 4), R("v1", 2), R("miri", 2, timeout=3600)],
+    },
     "C09": {
         "quick": [R("v0", 3), R("miri", 1, timeout=1500)],
         "thorough": [R("v0", 16), R("v1", 4), R("asan", 4), R("miri", 6, timeout=7200)],
